@@ -25,6 +25,7 @@ REQUIRED_COUNTERS = {"observations": {"quick": 20000, "thorough": 400000},
                      "threaded_observations": {"quick": 3000, "thorough": 60000},
                      "thread_switches_between_observations": {"quick": 1000, "thorough": 20000},
                      "stub_checks": {"quick": 3000, "thorough": 60000},
+                     "stubs_filled_in_by_the_caller_afterwards": {"quick": 500, "thorough": 10000},
                      "linepause_cases": {"quick": 50, "thorough": 50},
                      "observations_through_contextvars": {"quick": 1000, "thorough": 20000},
                      "nodes_below_a_generator_based_manager": {"quick": 500, "thorough": 10000}}
@@ -147,6 +148,11 @@ def worker(spec):
         stub_ok = True
         if not rc_obs:
             stub_ok = isinstance(s.root, Token) and not s.frames and s.leaf is None and s.error is None
+            if stub_ok and len(tls.obs) % 3 == 0:
+                # what a tree viewer does when the user expands a node: the stub is the caller's object now,
+                # and filling it in must not show in any other stack
+                s.frames.extend(s2.frames)
+                tls.filled = getattr(tls, "filled", 0) + 1
         tls.obs.append((node["id"], pos, wc_obs, rc_obs, stub_ok, tuple(node["eff"])))
 
     def body(node):
@@ -306,6 +312,7 @@ def worker(spec):
         res.count("restored_after_raise", after_raise)
         res.count("refusals_outside_checked")
         res.count("stub_checks", stubs + len(obs))
+        res.count("stubs_filled_in_by_the_caller_afterwards", len([1 for i, o in enumerate(obs) if not o[3] and o[4] and i % 3 == 0]))
         if threaded:
             res.count("threaded_observations", len(obs))
         desc = describe(node)
